@@ -392,9 +392,9 @@ def block_is_table(e):
     return not e.get("counts") and all(r >= 0 for r in (e.get("rids") or []))
 
 
-def case2_to_coq(c):
+def case2_to_coq(c, wps=1):
     ops = []
-    for o in c["ops"]:
+    for o in (c.get("ops") or []):
         if o["t"] == "http":
             ops.append("O2Http %s" % items_coq(c["reqs"][o.get("h", 0)].get("items")))
         elif o["t"] == "plan":
@@ -413,7 +413,7 @@ def case2_to_coq(c):
             elif t == "swap":
                 l.append("ESwap %d" % e["s"])
             elif t == "send":
-                k = L2KINDS[e["s"]]
+                k = L2KINDS[e["s"] // wps]
                 if block_is_table(e):
                     l.append("ESend %d %s %s" % (e["s"], KIND[k], tbl_coq(k, e.get("rids"))))
                 else:
@@ -424,8 +424,8 @@ def case2_to_coq(c):
                 h = e.get("h", 0)
                 l.append("EAnswer %d %s %s" % (h, handler_reqs_coq(c["reqs"][h].get("items")), b(e["ok"])))
         obs.append(coq_list(l))
-    cfg = coq_list(["(%s, %d, 0%%Z)" % (KIND[k], i) for i, k in enumerate(L2KINDS)])
-    dials = coq_list([coq_list([b(x) for x in (d or [])]) for d in (c.get("dials") or [[] for _ in L2KINDS])])
+    cfg = coq_list(["(%s, %d, 0%%Z)" % (KIND[k], i) for i, k in enumerate(L2KINDS) for _ in range(wps)])
+    dials = coq_list([coq_list([b(x) for x in (d or [])]) for d in (c.get("dials") or [[] for _ in range(len(L2KINDS) * wps)])])
     return ("{| d_id := (%d)%%Z; d_cfg := %s; d_attempts := %d%%N; d_dials := %s; d_drained := %s; d_handlers := %d;\n     d_ops := %s;\n     d_obs := %s |}"
             % (c["id"], cfg, c.get("attempts", 1), dials, b(c.get("drained")), len(c.get("reqs") or []), coq_list(ops), coq_list(obs)))
 
@@ -539,3 +539,39 @@ def coverage_level2(ck, res):
                                                            "http_status_codes": status})
     ck.add_samples([{"attempts": c.get("attempts"), "reqs": [{"route": r["route"], "items": r["items"]} for r in c["reqs"]][:2],
                      "ops": c["ops"][:8], "obs": (c.get("obs") or [])[:8]} for c in cases[:2]], limit=5)
+
+
+# ---------------------------------------------------------------------------------------------- level 3 (soak, a test)
+def run_soak(ck, pid):
+    """real timers, concurrent clients, random INSERT outcomes; only the monitors are run on the observed log"""
+    n = ck.n(3, 40)
+    outp = os.path.join(ck.work, "soak.jsonl")
+    rc, out = ck.go_run("ingest", ["--level", "3", "--seed", ck.seed + 31, "--n", n, "--out", outp], timeout=1200)
+    if rc != 0:
+        ck.obligation("soak test ran", False, out[-1500:])
+        return None
+    cases = [json.loads(l) for l in open(outp)]
+    broken = [c for c in cases if c.get("err")]
+    good = [c for c in cases if not c.get("err")]
+    v1, v2 = [], []
+    if good:
+        txt = (HEADER + "Definition cases : list case2 := [\n  " + ";\n  ".join(case2_to_coq(c, wps=4) for c in good) + "].\n"
+               "Definition M : list Z := [].\nPrint M.\n"
+               "Definition V1 := Eval vm_compute in c01_violations2 cases.\nPrint V1.\n"
+               "Definition V2 := Eval vm_compute in c02_violations2 cases.\nPrint V2.\n")
+        rc, o = ck.coq_eval("%s_soak" % pid, txt)
+        flat = " ".join(o.split())
+        v1, v2 = parse_ids(flat, "V1"), parse_ids(flat, "V2")
+        if rc != 0 or v1 is None or v2 is None:
+            ck.obligation("soak log evaluated inside Coq", False, o[-1500:])
+            return None
+    nontab = [c for c in good if any(e["t"] == "send" and not block_is_table(e) for l in (c.get("obs") or []) for e in (l or []))]
+    evs = [e for c in cases for l in (c.get("obs") or []) for e in (l or [])]
+    ck.extra["soak_test"] = {
+        "what": "TEST, not a comparison with the model: PushInterval 2 ms, maxQueueSize 400, round robins of 2 workers, 16 concurrent clients x 6 pushes per run over all HTTP routes, "
+                "RetryAttempts 3, fake ClickHouse answering after 0..300 us with an error one time in four; the C01/C02 monitors are run on the observed event log",
+        "runs": len(cases), "pushes": sum(len(c.get("reqs") or []) for c in cases),
+        "blocks": sum(1 for e in evs if e["t"] == "send"), "failed_inserts": sum(1 for e in evs if e["t"] == "done" and not e["ok"]),
+        "answers_success": sum(1 for e in evs if e["t"] == "answer" and e["ok"]), "answers_error": sum(1 for e in evs if e["t"] == "answer" and not e["ok"]),
+    }
+    return {"cases": cases, "good": good, "broken": broken, "v1": v1, "v2": v2, "nontab": nontab, "byid": {c["id"]: c for c in cases}}
